@@ -1,7 +1,7 @@
 (* C10 — editing a machine's topology never corrupts the bonds it does not touch.
    Only statements; proofs are in Proofs/TopoProofs.v. *)
 From Coq Require Import List ZArith.
-From BM Require Import Net.Topo Proofs.TopoProofs.
+From BM Require Import Net.Topo Proofs.TopoProofs Net.TopoCli.
 Import ListNotations.
 
 (* every machine reachable from the empty machine by any sequence of API edits
@@ -39,3 +39,20 @@ Example ex_state_nontrivial :
   bond_set (run [(2, 2)] ex_ops) = [(BI 0, PI 0 0); (PO 0 1, BO 0); (PO 0 0, PI 1 0); (BI 1, PI 1 1)] /\
   bond_set (step (run [(2, 2)] ex_ops) (DelInput 0)) = [(PO 0 1, BO 0); (PO 0 0, PI 1 0); (BI 0, PI 1 1)].
 Proof. vm_compute. split; reflexivity. Qed.
+
+(* the list forms of cmd/bondmachine's -del-inputs / -del-outputs (Net/TopoCli.v): the ids that exist are removed,
+   highest first; the order of the list, repeated ids and ids that do not exist make no difference, and the
+   machine stays well formed *)
+Theorem deleting_a_list_of_outputs_depends_only_on_the_set_named : forall b ids1 ids2,
+  (forall k, k < outputs b -> (In k ids1 <-> In k ids2)) -> cli_del_outputs b ids1 = cli_del_outputs b ids2.
+Proof. exact del_outputs_list_is_a_set. Qed.
+Print Assumptions deleting_a_list_of_outputs_depends_only_on_the_set_named.
+
+Theorem deleting_a_list_of_inputs_depends_only_on_the_set_named : forall b ids1 ids2,
+  (forall k, k < inputs b -> (In k ids1 <-> In k ids2)) -> cli_del_inputs b ids1 = cli_del_inputs b ids2.
+Proof. exact del_inputs_list_is_a_set. Qed.
+Print Assumptions deleting_a_list_of_inputs_depends_only_on_the_set_named.
+
+Theorem list_deletions_preserve_wf : forall b ids, wf b -> wf (cli_del_outputs b ids) /\ wf (cli_del_inputs b ids).
+Proof. exact list_deletions_keep_the_machine_well_formed. Qed.
+Print Assumptions list_deletions_preserve_wf.
